@@ -50,19 +50,32 @@ class C09(EngineACheck):
                 out.violate("C09.terminates", res.outcome[1], {"steps": w.steps})
         elif kind == "v":
             out.probe("returned_runs")
+            # A failure handled by catch / catch_all lets the execution go on and return while
+            # siblings of the failing expression are still in flight; they are abandoned when run
+            # returns (known finding, see DESIGN.md 11.3).
+            caught_failure = any(rec.jobs[j].outcome is not None and rec.jobs[j].outcome[0] == "e"
+                                 for j in rec.order)
+            in_flight_orphans = [j for j in rec.order
+                                 if rec.jobs[j].exec_count > 0 and rec.jobs[j].finalized == 0]
             for jid in rec.order:
                 r = rec.jobs[jid]
                 if r.exec_count > 1:
                     out.probe("jobs_waited_for_limits")
                 if r.finalized != 1:
                     why = "never-executed" if r.exec_count == 0 else "executed"
-                    out.violate("C09.all_settled", f"job-{why}-finalized-{r.finalized}x",
+                    sig = f"job-{why}-finalized-{r.finalized}x"
+                    if r.finalized == 0 and caught_failure and r.exec_count > 0:
+                        sig = "in-flight-when-run-returns/after-caught-failure"
+                        out.probe("orphans_after_caught_failure")
+                    elif r.finalized == 0 and caught_failure and in_flight_orphans:
+                        # never started: its arguments may be waiting for such an orphan
+                        sig = "waiting-for-in-flight-orphan/after-caught-failure"
+                    out.violate("C09.all_settled", sig,
                                 {"task": r.task, "exec_count": r.exec_count,
-                                 "outcome": repr(r.outcome)[:100]})
+                                 "handoffs": r.handoffs, "outcome": repr(r.outcome)[:100]})
                 elif r.status not in ("DONE", "CACHED", "FAILED"):
                     out.violate("C09.all_settled", f"final-status-{r.status}", {"task": r.task})
-            # (jobs that never executed are reported above, once, under their own signature)
-            left = [j for j in sched._jobs if rec.jobs[j.id].exec_count > 0]
+            left = [j for j in sched._jobs if rec.jobs[j.id].finalized]
             if left:
                 out.violate("C09.all_settled", "scheduler-jobs-left",
                             {"jobs": sorted(j.task.fullname for j in left)[:10]})
